@@ -19,6 +19,8 @@ def step (line : String) : String :=
   | "errdisp" :: args => runErrDisp args
   | "dnf" :: args => runDnf args
   | "iand" :: args => runIand args
+  | "iops" :: args => runIops args
+  | "ipy" :: args => runIpy args
   | "cmp" :: args => runCmp args
   | "show" :: args => runShow args
   | "expand" :: args => runExpand args
